@@ -37,7 +37,7 @@ def plan(tier, seed):
     return dict(
         cases=cases, chunk=6 if tier == "quick" else 12,
         rule="spec = skeleton + <=k deviations; per spec: points P0,P1,P2 and alpha=+-1 for each interpolated parameter x 2 datasets x fixed masks {none, POI, "
-             "one nuisance, POI+nuisance} x do_stitch x interpolation settings (non-default settings at generic points only); 'lean' cases use 2 masks and "
+             "one nuisance, POI+nuisance} x do_stitch x interpolation settings (non-default settings at generic points only); 'lean' cases use 3 masks and "
              "1 dataset; non-trivial = spec has a nuisance parameter; distinct = distinct (spec, backend)",
         alphabet={"backends": list(bk), "interp_settings": SETTINGS},
         bound={"deviations_per_backend": bk},
@@ -69,8 +69,8 @@ def eval_case(case):
                 pts = pts[1:]
             nuis = [i for i in range(cfg.npars) if i != cfg.poi_index]
             masks = [[], [cfg.poi_index]] + ([[nuis[-1]], [cfg.poi_index, nuis[0]]] if nuis else [])
-            if case["lean"]:
-                masks = [masks[0], masks[-1]]
+            if case["lean"] and len(masks) == 4:
+                masks = [masks[0], masks[2], masks[3]]  # none, the last nuisance alone (a fixed index preceded by free ones), POI + first nuisance
             dsets = ["int", "frac"] if not case["lean"] else ["frac"]
             for pl, vals in pts:
                 pv = np.array(L.vector(cfg, vals))
